@@ -76,8 +76,20 @@ let do_allaccept (txt : string) : string =
      | _ -> "REJECT")
   | _ -> "PARSE-ERR"
 
+(* npaccept: the premises of determinism_np_plain / np_polarized_agree_plain (proofs/DeterminismNP.v): closed,
+   all_src_b, and no forward / drop / split in the source with one provider name per process: for these
+   programs the runs of the non-polarized mode are the synchronous runs. *)
+let do_npaccept (txt : string) : string =
+  match parse_string (explode txt) with
+  | POk p ->
+    (match typecheck p with
+     | Accept p' -> if in_fragment_b p' && np_src_b p then "NP-IN" else "NP-OUT"
+     | _ -> "REJECT")
+  | _ -> "PARSE-ERR"
+
 let () =
   register "fjclass" do_fjclass;
+  register "npaccept" do_npaccept;
   register "allaccept" do_allaccept;
   register "coreaccept" do_coreaccept;
   register "initlin" do_initlin;
